@@ -40,6 +40,13 @@ func nsScen(c *Ctx) {
 	for i := 0; i < 2+r.Intn(2); i++ {
 		blobs = append(blobs, world.Make(world.BlobID{Kind: r.Intn(3), Seed: 12000 + i, Size: []int64{3000, 100, 5000, 4096}[r.Intn(4)]}))
 	}
+	// the hash of the empty blob is a key like any other in the AC and RAW key
+	// spaces (the CAS answers it implicitly; the CAS side of that key is not
+	// modelled here). Added after seeded change C15d.
+	emptyKey := &world.Blob{ID: world.BlobID{Kind: 9, Seed: 0, Size: 0}, Hash: world.EmptySha256}
+	if r.Chance(1, 2) {
+		blobs = append(blobs, emptyKey)
+	}
 	kinds := []cache.EntryKind{cache.CAS, cache.AC, cache.RAW}
 	model := map[string][]byte{} // "<kind>/<hash>" -> value
 	nOps := 8 + r.Intn(20)
@@ -49,6 +56,9 @@ func nsScen(c *Ctx) {
 		for i := 0; i < nOps; i++ {
 			b := blobs[r.Intn(len(blobs))]
 			kind := kinds[r.Intn(3)]
+			if b == emptyKey && kind == cache.CAS {
+				kind = kinds[1+r.Intn(2)]
+			}
 			key := kind.String() + "/" + b.Hash
 			before := world.Observe(n)
 			switch r.Weighted(4, 4, 1, 1, 1) {
@@ -118,6 +128,9 @@ func nsScen(c *Ctx) {
 					}
 				}
 			case 4: // HTTP view of the CAS
+				if b == emptyKey {
+					break // the empty blob is always present in the CAS
+				}
 				res := cl.HTTPGet("/cas/"+b.Hash, r.Chance(1, 2), world.FullRead)
 				want, has := model["cas/"+b.Hash]
 				if res.Found && res.OK && (!has || !bytes.Equal(res.Data, want)) {
